@@ -60,7 +60,9 @@ type PathCtx struct {
 	prefix   []uint64
 	pos      int
 	trace    []uint64
-	pc       []*Term
+	lits     []lit
+	altModel map[string]uint64
+	evalMemo map[*Term]uint64
 	model    map[string]uint64
 	modelOK  bool
 	inputs   []inputVar
@@ -77,8 +79,10 @@ type PathCtx struct {
 	nDec     int
 	nNew     int
 	funcs    map[string]int64
+	fcount   map[*ssa.Function]int64
 	seedVals map[string]uint64
 	originTag string
+	known    map[*Term]uint64
 }
 
 type obsRec struct {
@@ -100,15 +104,50 @@ func (pc *PathCtx) termHasUF(t *Term) bool {
 	return r
 }
 
-func (pc *PathCtx) assertTerm(t *Term) {
-	if t.op == OpBool {
-		if t.k == 1 {
-			return
-		}
+// lit is one element of the path condition.
+type lit struct {
+	t     *Term    // literal that holds on this path
+	kind  uint8    // 0 assume, 1 branch, 2 concretise
+	ct    *Term    // concretised term (kind 2)
+	excl  []uint64 // values already explored (kind 2)
+	done  bool     // alternative already handled (eagerly or by an ancestor)
+	tpos  int      // position in the decision trace
+}
+
+func (pc *PathCtx) addLit(l lit) {
+	if l.t.op == OpBool && l.t.k == 1 && l.kind == 0 {
+		return
 	}
-	pc.pc = append(pc.pc, t)
-	nm := pc.em.Name(t)
-	pc.solver.Emit("(assert " + nm + ")")
+	pc.lits = append(pc.lits, l)
+}
+
+// checkPath asks the solver for sat(all literals [+ extra]) and adopts the model when sat.
+func (pc *PathCtx) checkPath(in *Interp, extra *Term, adopt bool) string {
+	s := pc.solver
+	var names []string
+	for _, l := range pc.lits {
+		names = append(names, pc.em.Name(l.t))
+	}
+	if extra != nil {
+		names = append(names, pc.em.Name(extra))
+	}
+	s.raw("(push 1)")
+	s.scope = s.scope[:0]
+	for _, n := range names {
+		if n == "true" {
+			continue
+		}
+		a := "(assert " + n + ")"
+		s.scope = append(s.scope, a)
+		s.raw(a)
+	}
+	r := s.CheckSat("")
+	if r == "sat" && adopt {
+		pc.fetchModel(in)
+	}
+	s.raw("(pop 1)")
+	s.scope = s.scope[:0]
+	return r
 }
 
 func ufEval(name string, a, b uint64) uint64 {
@@ -125,7 +164,7 @@ func ufEval(name string, a, b uint64) uint64 {
 }
 
 func (pc *PathCtx) evalModel(in *Interp, t *Term) uint64 {
-	return in.ts.Eval(t, pc.model, map[*Term]uint64{}, ufEval)
+	return in.ts.Eval(t, pc.model, pc.evalMemo, ufEval)
 }
 
 // ensureModel obtains a model of the current path condition.
@@ -133,14 +172,13 @@ func (pc *PathCtx) ensureModel(in *Interp) {
 	if pc.modelOK {
 		return
 	}
-	res := pc.solver.CheckSat("")
+	res := pc.checkPath(in, nil, true)
 	if res != "sat" {
 		if res == "unsat" {
-			in.end("infeasible", "path condition unsat when a model was requested")
+			in.end("infeasible", "path condition unsatisfiable")
 		}
 		in.end("inconclusive", "solver %s on path condition (%s)", res, lastSolverError)
 	}
-	pc.fetchModel(in)
 }
 
 func (pc *PathCtx) fetchModel(in *Interp) {
@@ -155,85 +193,95 @@ func (pc *PathCtx) fetchModel(in *Interp) {
 		in.end("inconclusive", "get-value failed: %v", err)
 	}
 	pc.model = m
+	pc.evalMemo = map[*Term]uint64{}
 	pc.modelOK = true
 }
 
-// decide resolves a symbolic branch.
-func (pc *PathCtx) decide(in *Interp, t *Term, what string) bool {
-	if t.op == OpBool {
-		return t.k == 1
-	}
+func (pc *PathCtx) budgetCheck(in *Interp) {
 	pc.nDec++
 	if pc.nDec > pc.exp.cfg.MaxDecisions {
 		in.end("budget", "unwinding bound: more than %d symbolic decisions on one path (%s)", pc.exp.cfg.MaxDecisions, in.where())
 	}
+}
+
+// assume adds a constraint; the path ends when it cannot hold.
+func (pc *PathCtx) assume(in *Interp, t *Term) {
+	if t.op == OpBool {
+		if t.k == 0 {
+			in.end("assume", "")
+		}
+		return
+	}
+	pc.addLit(lit{t: t, kind: 0})
+	if pc.modelOK && !pc.termHasUF(t) {
+		if pc.evalModel(in, t) != 0 {
+			return
+		}
+	}
+	if pc.pos < len(pc.prefix) && !pc.modelOK {
+		return // checked when the model is first needed
+	}
+	pc.modelOK = false
+	r := pc.checkPath(in, nil, true)
+	if r == "unsat" {
+		in.end("assume", "")
+	}
+	if r != "sat" {
+		in.end("inconclusive", "solver %s on assumption (%s)", r, lastSolverError)
+	}
+}
+
+// decide resolves a symbolic branch by following the current model; the other
+// side is checked (and scheduled) when the path ends.
+func (pc *PathCtx) decide(in *Interp, t *Term, what string) bool {
+	if t.op == OpBool {
+		return t.k == 1
+	}
+	pc.budgetCheck(in)
 	if pc.pos < len(pc.prefix) {
 		d := pc.prefix[pc.pos]
 		pc.pos++
 		pc.trace = append(pc.trace, d)
-		if d == 1 {
-			pc.assertTerm(t)
-		} else {
-			pc.assertTerm(in.ts.BNot(t))
-		}
-		pc.modelOK = false
+		pc.addLit(lit{t: ifThen(d == 1, t, in.ts.BNot(t)), kind: 1, done: true, tpos: len(pc.trace) - 1})
 		return d == 1
 	}
 	pc.nNew++
-	// new decision point
+	if pc.exp.cfg.Tally {
+		pc.exp.tally(what, in.curFn())
+	}
+	if pc.termHasUF(t) {
+		return pc.decideEager(in, t, what)
+	}
+	pc.ensureModel(in)
+	side := pc.evalModel(in, t) != 0
+	pc.trace = append(pc.trace, b2u(side))
+	pc.addLit(lit{t: ifThen(side, t, in.ts.BNot(t)), kind: 1, tpos: len(pc.trace) - 1})
+	return side
+}
+
+// decideEager queries both sides explicitly (conditions over uninterpreted functions).
+func (pc *PathCtx) decideEager(in *Interp, t *Term, what string) bool {
+	rt := pc.checkPath(in, t, false)
+	rf := pc.checkPath(in, in.ts.BNot(t), false)
+	if rt == "unknown" || rf == "unknown" {
+		pc.note(in, "inconclusive", what, "solver unknown on a branch over uninterpreted functions")
+	}
 	var side bool
-	known := false
-	if !pc.termHasUF(t) {
-		pc.ensureModel(in)
-		side = pc.evalModel(in, t) != 0
-		known = true
-	} else {
-		// UF present: query the true side explicitly
-		r := pc.solver.CheckSat(pc.em.Name(t))
-		if r == "sat" {
-			pc.solver.PopExtra()
-			side = true
-			known = true
-		} else if r == "unknown" {
-			pc.note(in, "inconclusive", what, "solver unknown on branch (true side)")
+	switch {
+	case rt == "sat":
+		side = true
+		if rf == "sat" {
+			alt := append(append([]uint64(nil), pc.trace...), 0)
+			pc.exp.push(alt, nil)
 		}
-		if !known {
-			side = false
-			r2 := pc.solver.CheckSat(pc.em.Name(in.ts.BNot(t)))
-			if r2 == "sat" {
-				pc.solver.PopExtra()
-			} else if r2 == "unsat" {
-				in.end("infeasible", "both sides infeasible")
-			} else {
-				in.end("inconclusive", "solver unknown on both sides of a branch")
-			}
-			pc.trace = append(pc.trace, 0)
-			pc.assertTerm(in.ts.BNot(t))
-			pc.modelOK = false
-			return false
-		}
-	}
-	// check the other side
-	var other *Term
-	if side {
-		other = in.ts.BNot(t)
-	} else {
-		other = t
-	}
-	r := pc.solver.CheckSat(pc.em.Name(other))
-	switch r {
-	case "sat":
-		pc.solver.PopExtra()
-		alt := append(append([]uint64(nil), pc.trace...), b2u(!side))
-		pc.exp.push(alt)
-	case "unknown":
-		pc.note(in, "inconclusive", what, "solver unknown on branch alternative: "+lastSolverError)
+	case rf == "sat":
+		side = false
+	default:
+		in.end("infeasible", "both sides of a branch infeasible")
 	}
 	pc.trace = append(pc.trace, b2u(side))
-	pc.assertTerm(ifThen(side, t, in.ts.BNot(t)))
-	if pc.termHasUF(t) {
-		pc.modelOK = false
-	}
+	pc.addLit(lit{t: ifThen(side, t, in.ts.BNot(t)), kind: 1, done: true, tpos: len(pc.trace) - 1})
+	pc.modelOK = false
 	return side
 }
 
@@ -256,58 +304,180 @@ func (pc *PathCtx) concretize(in *Interp, t *Term, what string) uint64 {
 	if t.op == OpConst {
 		return t.k
 	}
-	pc.nDec++
-	if pc.nDec > pc.exp.cfg.MaxDecisions {
-		in.end("budget", "unwinding bound: more than %d symbolic decisions on one path (%s)", pc.exp.cfg.MaxDecisions, in.where())
-	}
+	pc.budgetCheck(in)
 	if pc.pos < len(pc.prefix) {
 		d := pc.prefix[pc.pos]
 		pc.pos++
 		pc.trace = append(pc.trace, d)
-		pc.assertTerm(in.ts.Cmp(OpEq, t, in.ts.Const(d, t.w)))
-		pc.modelOK = false
+		pc.addLit(lit{t: in.ts.Cmp(OpEq, t, in.ts.Const(d, t.w)), kind: 2, ct: t, done: true, tpos: len(pc.trace) - 1})
+		pc.learn(t, d)
 		return d
 	}
 	pc.nNew++
+	if pc.exp.cfg.Tally {
+		pc.exp.tally("conc:"+what, in.curFn())
+	}
 	if pc.termHasUF(t) {
 		in.end("unsupported", "concretisation of a term over uninterpreted functions (%s)", what)
 	}
 	pc.ensureModel(in)
 	v0 := pc.evalModel(in, t)
-	// enumerate alternatives
-	tn := pc.em.Name(t)
-	seen := []uint64{v0}
-	pc.solver.raw("(push 1)")
-	pc.solver.raw(fmt.Sprintf("(assert (not (= %s %s)))", tn, constStr(v0, t.w)))
-	capN := pc.exp.cfg.MaxConcretize
-	for {
-		r := pc.solver.CheckSat("")
-		if r == "unsat" {
-			break
-		}
-		if r != "sat" {
-			pc.note(in, "inconclusive", what, "solver unknown while enumerating values")
-			break
-		}
-		m, err := pc.solver.GetValues([]string{tn})
-		if err != nil {
-			pc.note(in, "inconclusive", what, "get-value failed while enumerating")
-			break
-		}
-		v := m[tn]
-		seen = append(seen, v)
-		alt := append(append([]uint64(nil), pc.trace...), v)
-		pc.exp.push(alt)
-		if len(seen) > capN {
-			pc.note(in, "inconclusive", what, fmt.Sprintf("more than %d values while concretising (%s) at %s", capN, what, in.where()))
-			break
-		}
-		pc.solver.raw(fmt.Sprintf("(assert (not (= %s %s)))", tn, constStr(v, t.w)))
-	}
-	pc.solver.raw("(pop 1)")
 	pc.trace = append(pc.trace, v0)
-	pc.assertTerm(in.ts.Cmp(OpEq, t, in.ts.Const(v0, t.w)))
+	pc.addLit(lit{t: in.ts.Cmp(OpEq, t, in.ts.Const(v0, t.w)), kind: 2, ct: t, excl: []uint64{v0}, tpos: len(pc.trace) - 1})
+	pc.learn(t, v0)
 	return v0
+}
+
+// learn records that term t has the concrete value v on this path and derives
+// the values of sub-terms that are determined by it.
+func (pc *PathCtx) learn(t *Term, v uint64) {
+	for depth := 0; depth < 8 && t != nil; depth++ {
+		if t.op == OpConst {
+			return
+		}
+		v &= mask(t.w)
+		pc.known[t] = v
+		switch t.op {
+		case OpAdd:
+			if t.b.op == OpConst {
+				v = v - t.b.k
+				t = t.a
+				continue
+			}
+		case OpSub:
+			if t.a.op == OpConst {
+				v = t.a.k - v
+				t = t.b
+				continue
+			}
+			if t.b.op == OpConst {
+				v = v + t.b.k
+				t = t.a
+				continue
+			}
+		case OpZExt:
+			t = t.a
+			continue
+		case OpSExt:
+			t = t.a
+			continue
+		case OpNeg:
+			v = -v
+			t = t.a
+			continue
+		case OpNot:
+			v = ^v
+			t = t.a
+			continue
+		}
+		return
+	}
+}
+
+// flush finds every feasible divergence from this path among its new decisions
+// and schedules it (with a model) as a new path.
+func (pc *PathCtx) flush(in *Interp) {
+	if pc.solver.dead {
+		return
+	}
+	ts := in.ts
+	for iter := 0; ; iter++ {
+		// G = OR_i (prefix_i AND alt_i)
+		g := ts.Bool(false)
+		any := false
+		for k := len(pc.lits) - 1; k >= 0; k-- {
+			l := &pc.lits[k]
+			if l.kind == 0 || l.done {
+				if g.op == OpBool && g.k == 0 {
+					continue
+				}
+				g = ts.BAnd(l.t, g)
+				continue
+			}
+			var alt *Term
+			if l.kind == 1 {
+				alt = ts.BNot(l.t)
+			} else {
+				alt = ts.Bool(true)
+				for _, v := range l.excl {
+					alt = ts.BAnd(alt, ts.BNot(ts.Cmp(OpEq, l.ct, ts.Const(v, l.ct.w))))
+				}
+			}
+			any = true
+			g = ts.BOr(alt, ts.BAnd(l.t, g))
+		}
+		if !any {
+			return
+		}
+		// literals before the first open decision are part of g already (conjunctions)
+		s := pc.solver
+		gname := pc.em.Name(g)
+		s.raw("(push 1)")
+		a := "(assert " + gname + ")"
+		s.scope = append(s.scope[:0], a)
+		s.raw(a)
+		r := s.CheckSat("")
+		if r != "sat" {
+			s.raw("(pop 1)")
+			s.scope = s.scope[:0]
+			if r == "unknown" {
+				pc.events = append(pc.events, Event{Kind: "inconclusive", Label: "divergence", Msg: "solver unknown while checking the alternatives of a path: " + lastSolverError})
+			}
+			return
+		}
+		pc.fetchModelInto(in, &pc.altModel)
+		s.raw("(pop 1)")
+		s.scope = s.scope[:0]
+		memo := map[*Term]uint64{}
+		found := false
+		for k := range pc.lits {
+			l := &pc.lits[k]
+			if ts.Eval(l.t, pc.altModel, memo, ufEval) != 0 {
+				continue
+			}
+			// first literal the new model violates
+			if l.kind == 0 || l.done {
+				pc.events = append(pc.events, Event{Kind: "inconclusive", Label: "divergence", Msg: "engine: divergence model violates a closed literal"})
+				return
+			}
+			var v uint64
+			if l.kind == 1 {
+				v = 1 - pc.trace[l.tpos]
+				l.done = true
+			} else {
+				v = ts.Eval(l.ct, pc.altModel, memo, ufEval)
+				l.excl = append(l.excl, v)
+				if len(l.excl) > pc.exp.cfg.MaxConcretize {
+					pc.events = append(pc.events, Event{Kind: "inconclusive", Label: "concretize", Msg: fmt.Sprintf("more than %d values while concretising", pc.exp.cfg.MaxConcretize)})
+					l.done = true
+				}
+			}
+			alt := append(append([]uint64(nil), pc.trace[:l.tpos]...), v)
+			pc.exp.push(alt, pc.altModel)
+			pc.altModel = nil
+			found = true
+			break
+		}
+		if !found {
+			pc.events = append(pc.events, Event{Kind: "inconclusive", Label: "divergence", Msg: "engine: divergence model satisfies every literal"})
+			return
+		}
+	}
+}
+
+func (pc *PathCtx) fetchModelInto(in *Interp, dst *map[string]uint64) {
+	names := make([]string, 0, len(in.ts.vars))
+	for _, v := range in.ts.vars {
+		if _, ok := pc.em.names[v]; ok {
+			names = append(names, v.name)
+		}
+	}
+	m, err := pc.solver.GetValues(names)
+	if err != nil {
+		m = map[string]uint64{}
+		pc.events = append(pc.events, Event{Kind: "inconclusive", Label: "divergence", Msg: "get-value failed: " + err.Error()})
+	}
+	*dst = m
 }
 
 func (pc *PathCtx) note(in *Interp, kind, label, msg string) {
@@ -350,6 +520,13 @@ type Config struct {
 	TrackWrites   bool
 	TraceSMT      string
 	Deadline      time.Time
+	Tally         bool
+	RetryMs       int
+}
+
+type workItem struct {
+	prefix []uint64
+	model  map[string]uint64
 }
 
 type Explorer struct {
@@ -358,7 +535,7 @@ type Explorer struct {
 	entry   *ssa.Function
 	mu      sync.Mutex
 	cond    *sync.Cond
-	work    [][]uint64
+	work    []workItem
 	active  int
 	results []*PathResult
 	nextID  int
@@ -366,18 +543,31 @@ type Explorer struct {
 	stopped bool
 	funcs   map[string]int64
 	pickN   map[string]int
+	decKinds map[string]int
 }
 
-func (e *Explorer) push(prefix []uint64) {
+func (e *Explorer) tally(what, fn string) {
+	if i := strings.Index(what, ":C"); i > 0 && strings.HasPrefix(what, "assert") {
+		// keep assert labels
+	}
 	e.mu.Lock()
-	e.work = append(e.work, prefix)
+	if e.decKinds == nil {
+		e.decKinds = map[string]int{}
+	}
+	e.decKinds[what+" @ "+fn]++
+	e.mu.Unlock()
+}
+
+func (e *Explorer) push(prefix []uint64, model map[string]uint64) {
+	e.mu.Lock()
+	e.work = append(e.work, workItem{prefix, model})
 	e.mu.Unlock()
 	e.cond.Signal()
 }
 
 func (e *Explorer) Run() {
 	e.cond = sync.NewCond(&e.mu)
-	e.work = [][]uint64{nil}
+	e.work = []workItem{{}}
 	e.funcs = map[string]int64{}
 	var wg sync.WaitGroup
 	e.stats = make([]*Stats, e.cfg.Workers)
@@ -398,6 +588,7 @@ func (e *Explorer) worker(w int) {
 		panic(err)
 	}
 	defer solver.Close()
+	solver.retryMs = e.cfg.RetryMs
 	for {
 		e.mu.Lock()
 		for len(e.work) == 0 && e.active > 0 && !e.stopped {
@@ -409,8 +600,9 @@ func (e *Explorer) worker(w int) {
 			return
 		}
 		// DFS: take the most recent
-		prefix := e.work[len(e.work)-1]
+		item := e.work[len(e.work)-1]
 		e.work = e.work[:len(e.work)-1]
+		prefix := item.prefix
 		e.active++
 		id := e.nextID
 		e.nextID++
@@ -433,7 +625,7 @@ func (e *Explorer) worker(w int) {
 			solver.Close()
 			solver.start()
 		}
-		res := e.runPath(solver, prefix, id)
+		res := e.runPath(solver, prefix, item.model, id)
 		e.mu.Lock()
 		e.results = append(e.results, res)
 		for k, v := range res.Funcs {
@@ -445,13 +637,18 @@ func (e *Explorer) worker(w int) {
 	}
 }
 
-func (e *Explorer) runPath(solver *Solver, prefix []uint64, id int) (res *PathResult) {
+func (e *Explorer) runPath(solver *Solver, prefix []uint64, model map[string]uint64, id int) (res *PathResult) {
 	ts := NewTermStore()
 	heap := &Heap{nextID: e.prog.baseHeap.nextID + 1}
 	in := &Interp{prog: e.prog, ts: ts, heap: heap, maxSt: e.cfg.MaxSteps}
 	solver.Push()
 	pc := &PathCtx{exp: e, solver: solver, em: NewEmitter(solver, ts), prefix: prefix, covers: map[string]bool{},
-		picks: map[string]int{}, params: e.cfg.Params, memoUF: map[*Term]bool{}, trackWrites: e.cfg.TrackWrites, funcs: map[string]int64{}}
+		picks: map[string]int{}, known: map[*Term]uint64{}, params: e.cfg.Params, memoUF: map[*Term]bool{}, trackWrites: e.cfg.TrackWrites, funcs: map[string]int64{}, fcount: map[*ssa.Function]int64{}}
+	if model != nil {
+		pc.model = model
+		pc.modelOK = true
+	}
+	pc.evalMemo = map[*Term]uint64{}
 	in.ex = pc
 	res = &PathResult{ID: id, Prefix: prefix}
 	defer func() {
@@ -485,6 +682,9 @@ func (e *Explorer) runPath(solver *Solver, prefix []uint64, id int) (res *PathRe
 		res.Steps = in.steps
 		res.Decisions = pc.nDec
 		res.Picks = pc.picks
+		for f, c := range pc.fcount {
+			pc.funcs[f.String()] += c
+		}
 		res.Funcs = pc.funcs
 		for c := range pc.covers {
 			res.Covers = append(res.Covers, c)
@@ -505,6 +705,8 @@ func (e *Explorer) runPath(solver *Solver, prefix []uint64, id int) (res *PathRe
 			}
 			if !solver.dead {
 				pc.ensureModel(in)
+				pc.flush(in)
+				res.Events = pc.events
 				for _, iv := range pc.inputs {
 					res.Inputs = append(res.Inputs, pc.model[iv.t.name]&mask16(iv.w))
 					res.InputW = append(res.InputW, iv.w)
